@@ -109,7 +109,7 @@ def _assign_blocks(cf, keys):
     return out
 
 
-def feasible_blocks(cf, val):
+def feasible_blocks(cf, val, entry=False):
     """blocks reachable from the entry along edges that are not definitely
     excluded under val.  A condition that mentions a decision variable which
     may still be assigned later (the branch block reaches an assignment to it)
@@ -120,10 +120,15 @@ def feasible_blocks(cf, val):
     for k, blocks in asg.items():
         st = set()
         for b in cf.blocks:
-            if blocks and (cf.reachable_from(b) & blocks):
+            if entry:
+                # the valuation is the value at function ENTRY: unknown once an assignment may have happened
+                if blocks and any(b == a or b in cf.reachable_from(a) for a in blocks):
+                    st.add(b)
+            elif blocks and (cf.reachable_from(b) & blocks):
                 st.add(b)
         stale[k] = st
     seen = {cf.entry}
+    edges = set()
     work = [cf.entry]
     while work:
         b = work.pop()
@@ -136,10 +141,18 @@ def feasible_blocks(cf, val):
         for s, pol in es:
             if v is not None and pol is not None and bool(v) != pol:
                 continue
+            edges.add((b, s))
             if s not in seen:
                 seen.add(s)
                 work.append(s)
+    cf.__dict__.setdefault('_feas_edges', {})[(entry,) + tuple(sorted((str(k), v_) for k, v_ in val.items()))] = edges
     return seen
+
+
+def feasible_edges(cf, val, entry=False):
+    """(blocks, edges) that can be traversed under val"""
+    blocks = feasible_blocks(cf, val, entry)
+    return blocks, cf.__dict__['_feas_edges'][(entry,) + tuple(sorted((str(k), v_) for k, v_ in val.items()))]
 
 
 def enabled(cf, block, val):
